@@ -1,7 +1,7 @@
 (* C18 driver: parses case lines (syntax documented in harness/src/bin/c18.rs), runs the extracted model
    (model_obs) and the extracted judge on the implementation's observation.  I/O glue only: sorting lists for
    printing is canonicalisation of sets, the property logic is in Witnesses/WitnessSpec.v. *)
-let parse_case (toks : string list) : (baddr * n) list * tx_ops =
+let parse_case (toks : string list) : (n * n) list * (baddr * n) list * tx_ops =
   let a = Array.of_list toks in
   let pos = ref 1 in                                   (* a.(0) is the generator label *)
   let next () = if !pos >= Array.length a then failwith "case syntax: truncated" else (let s = a.(!pos) in incr pos; s) in
@@ -68,8 +68,20 @@ let parse_case (toks : string list) : (baddr * n) list * tx_ops =
   expect "S"; let signers = list () in
   expect "R"; let refs = list () in
   expect "D"; let datums = list () in
-  (attrs, { t_inputs = inputs; t_collateral = collateral; t_certs = certs; t_withdrawals = wdrl; t_votes = votes;
-            t_proposals = props; t_mint = mint; t_required_signers = signers; t_reference_inputs = refs;
+  (* optional trailing sections *)
+  let hr = ref [] and mintq = ref None in
+  while !pos < Array.length a do
+    (match next () with
+     | "H" -> let k = count () in hr := rep k (fun () -> let c = cred () in let r = num () in (cred_item c, r))
+     | "Z" -> let k = count () in ignore (rep k num)          (* zero-amount withdrawals: the modelled code does not look at amounts *)
+     | "Q" -> let k = count () in mintq := Some (rep k (fun () -> let a = num () in let q = z_of_string (next ()) in (a, q)))
+     | _ -> failwith "case syntax: trailing section")
+  done;
+  let mint_ops = (match !mintq with
+    | Some q -> List.map2 (fun w (a, x) -> { mo_wit = w; mo_asset = a; mo_amount = x }) mint q
+    | None -> List.mapi (fun i w -> { mo_wit = w; mo_asset = n_of_int (i mod 3); mo_amount = z_of_string (string_of_int (1 + i)) }) mint) in
+  (!hr, attrs, { t_inputs = inputs; t_collateral = collateral; t_certs = certs; t_withdrawals = wdrl; t_votes = votes;
+            t_proposals = props; t_mint = mint_ops; t_required_signers = signers; t_reference_inputs = refs;
             t_extra_datums = datums; t_dedup_explicit_refs = dedup })
 
 let sorted_ints (l : n list) : BZ.t list = List.sort BZ.compare (List.map bz_of_n l)
@@ -83,11 +95,12 @@ let show_bits (l : bool list) : string =
 
 let show_model (m : model_out) : string =
   let e = m.m_emitted in
-  Printf.sprintf "ok acc=%s dfs=%s dss=%s sig=%s bw=%s ns=%s ps=%s dat=%s red=%s refs=%s ins=%s col=%s rs=%s"
+  Printf.sprintf "ok acc=%s dfs=%s dss=%s sig=%s bw=%s ns=%s ps=%s dat=%s red=%s refs=%s ins=%s col=%s rs=%s mp=%s vred=%s"
     (show_bits m.m_acceptance) (string_of_n m.m_predicted) (string_of_n m.m_signed)
     (show_list m.m_sign_keys) (show_list m.m_sign_boots)
     (show_list e.e_native) (show_list e.e_plutus) (show_list e.e_datums) (show_pairs e.e_redeemers)
     (show_list e.e_refs) (show_list e.e_inputs) (show_list m.m_collateral) (show_list m.m_required_signers)
+    (show_list e.e_mint) (show_pairs e.e_vote_redeemers)
 
 (* the implementation's observation: "ok name=value ..." *)
 let parse_list (s : string) : n list =
@@ -105,7 +118,8 @@ let parse_obs (impl : string list) : obs option =
     if BZ.sign (BZ.of_string (g "dfs")) < 0 || BZ.sign (BZ.of_string (g "dss")) < 0 then None else
     Some { o_predicted = n_of_string (g "dfs"); o_signed = n_of_string (g "dss");
            o_emitted = { e_native = parse_list (g "ns"); e_plutus = parse_list (g "ps"); e_datums = parse_list (g "dat");
-                         e_redeemers = parse_pairs (g "red"); e_refs = parse_list (g "refs"); e_inputs = parse_list (g "ins") } }
+                         e_redeemers = parse_pairs (g "red"); e_refs = parse_list (g "refs"); e_inputs = parse_list (g "ins");
+                         e_mint = parse_list (g "mp"); e_vote_redeemers = parse_pairs (g "vred") } }
   | _ -> None
 
 let show_verdict = function
@@ -118,11 +132,14 @@ let show_verdict = function
       | _ -> "fails:-")
 
 let () = run_driver (fun toks impl ->
-  let (attrs, t) = parse_case toks in
-  let m = show_model (model_obs attrs t) in
+  let (hr, attrs, t) = parse_case toks in
+  let m = (match model_result hr attrs t with
+    | Some o -> show_model o
+    | None -> "err:full_size") in                        (* the builder refuses to build *)
   let v = match impl with
     | [] -> "na"                                         (* no implementation result given *)
+    | "err:full_size" :: _ when build_refused t -> "na"  (* refused, as the model says: no transaction to judge *)
     | _ -> (match parse_obs impl with
-        | Some o -> show_verdict (judge t o)
+        | Some o -> show_verdict (judge_hr hr t o)
         | None -> "fails:-") in                          (* error, panic or malformed observation *)
   (m, v))
